@@ -8,7 +8,7 @@
    [iterator f s] is the model of Node.iterator (mirrors Node._iter_pre).
    A limit k = 0 stands for max_results None / 0 (no limit). *)
 From Coq Require Import List ZArith Bool Arith Permutation.
-From NT Require Import Sx Rose Search SearchProofs.
+From NT Require Import Sx Rose Search SearchProofs CaseC09.
 Import ListNotations.
 
 (* ---- pattern and predicate searches ------------------------------------ *)
@@ -145,6 +145,17 @@ Print Assumptions C09_tree_find_first_node_id.
 Theorem C09_state_wf_decided : forall st : tstate, state_wf_b st = true -> state_wf st.
 Proof. exact state_wf_b_sound. Qed.
 Print Assumptions C09_state_wf_decided.
+
+(* ... and the case runner reports it as the first component of every
+   observation: an observation that starts with 1 (what the harness expects)
+   certifies the hypothesis for that case's state *)
+Theorem C09_case_reports_wf : forall (c : case) (rest : list sx),
+  run09 c = L (A 1%Z :: rest) -> state_wf (c_state c).
+Proof.
+  intros c rest E. apply state_wf_b_sound. unfold run09 in E.
+  destruct (state_wf_b (c_state c)); [reflexivity|discriminate E].
+Qed.
+Print Assumptions C09_case_reports_wf.
 
 (* ---- index access -------------------------------------------------------- *)
 
